@@ -321,3 +321,6 @@ Definition sdef_sig (H0 : bytes -> N) (HC : N -> token -> N) (s : sdef) : option
   match sdef_sig_tokens s with Some p => Some (chain_p H0 HC p) | None => None end.
 
 Definition ex_sdef : sdef := mkSdef [76] [[105]] [[60;97;62]] [116] [108;105;110;107] false.
+
+(* a directory as stat reports it (mode 040755) *)
+Definition ex_dirinfo (sec size : N) : fileinfo := mkFI 1 9 16877 size sec 0 (repeat 0 32).
